@@ -810,6 +810,8 @@ impl TypeLayout {
             TypeLayout::Module(..) => false,
             TypeLayout::ValidIndexes(..) => unreachable!(),
             TypeLayout::Void => false,
+            // the interpreter cannot compare maps (`GcMap::eq`), nor lists / optionals holding one
+            _ if me.contains_map() => false,
             _ => true,
         }
     }
